@@ -3357,8 +3357,10 @@ class Parameters:
                 # dealing with object and it's been set on this object
                 value = cls_or_slf._param__private.values[name]
             else:
-                # dealing with class or isn't set on the object
-                value = param_obj.default
+                # dealing with class or isn't set on the object: the value
+                # is the class's default, which an instance-level copy of
+                # the Parameter does not follow
+                value = self_.cls.param[name].default
 
         return value
 
